@@ -23,4 +23,19 @@ OpFails(pbox, stack, fb, op, parentCalls) ==
        IN   (IF exp = got THEN {} ELSE {"parent_content_differs"})
        \cup (IF ~HasClip(stack) \/ \A i \in 1..Len(parentCalls) : Addressed(pbox, parentCalls[i]) \subseteq allowed
              THEN {} ELSE {"point_outside_clip_reached_parent"})
+
+\* Operations on areas with 2^32 or more points through a stack of translated / color_converted layers on a
+\* draw_iter-only parent: the recorder pulls only a prefix of the pixel stream of the single draw_iter call.
+\* That prefix must be the row-major points of the area paired with the colours, pushed through the stack.
+HugeFails(pbox, stack, op, parentCalls) ==
+  IF \E i \in 1..Len(stack) : stack[i].k \in {"cl", "cr"} THEN {}
+  ELSE IF Len(parentCalls) # 1 \/ parentCalls[1].m # "draw_iter" THEN {"default_fill_is_not_one_draw_iter_call"}
+  ELSE LET px == parentCalls[1].px  w == op.area[3]
+           Exp(i) == PushToParent(pbox, stack, Len(stack),
+                                  <<op.area[1] + ((i - 1) % w), op.area[2] + ((i - 1) \div w),
+                                    IF op.m = "fill_solid" THEN op.color ELSE op.colors[i]>>)
+           n == IF op.m = "fill_solid" THEN Len(px) ELSE Min(Len(px), Len(op.colors))
+       IN   (IF \A i \in 1..n : px[i] = Exp(i) THEN {} ELSE {"default_fill_stream_prefix_differs"})
+       \cup (IF op.m = "fill_solid" \/ Len(px) <= Len(op.colors) THEN {} ELSE {"default_fill_stream_too_long"})
+       \cup (IF Len(px) > 0 THEN {} ELSE {"default_fill_stream_empty"})
 =============================================================================
